@@ -30,6 +30,9 @@ type Out struct {
 	failKeys map[string]int
 	keepHist bool     // engines that attach the op lines of the current history to an oracle failure
 	hist     []string // state-changing op lines since the last `reset`
+	// rename[0] != "": an op line starting with rename[0] is written with that prefix replaced by rename[1] (engine `gammg` is engine
+	// `gamm` with more op lines; the Lean driver routes on the first word)
+	rename [2]string
 }
 
 func NewOut(dir string) *Out {
@@ -49,6 +52,9 @@ func NewOut(dir string) *Out {
 
 // Emit records one op line and the implementation's observation.
 func (o *Out) Emit(op string, obs string, nontrivial bool) {
+	if o.rename[0] != "" && strings.HasPrefix(op, o.rename[0]) {
+		op = o.rename[1] + op[len(o.rename[0]):]
+	}
 	o.ops.WriteString(op)
 	o.ops.WriteByte('\n')
 	o.impl.WriteString(obs)
